@@ -539,6 +539,29 @@ func init() {
 			m.Answer = append(m.Answer, dns.Copy(attackerKey(c).DNSKEY))
 			return true
 		}},
+		vkKind{"attacker-key-selfsigned", 0, func(c *vkTamperCtx, m *dns.Msg) bool {
+			// DNSKEY response: the attacker's own key added to the RRset and the RRset signed ONLY with
+			// that key. The genuine KSK still matches the parent's DS, but no DS-authenticated key vouches
+			// for the set (RFC 4035 5.2: the DNSKEY RRset must be signed by a key the DS authenticates).
+			if c.q.Qtype != dns.TypeDNSKEY || c.zone == nil || !c.zone.Mode.Signed() || !strings.EqualFold(zonemodel.Canon(c.q.Name), c.zone.Apex) {
+				return false
+			}
+			var set []dns.RR
+			for _, rr := range m.Answer {
+				if rr.Header().Rrtype == dns.TypeDNSKEY {
+					set = append(set, rr)
+				}
+			}
+			if len(set) == 0 {
+				return false
+			}
+			k := attackerKey(c)
+			ak := dns.Copy(k.DNSKEY)
+			ak.Header().Ttl = set[0].Header().Ttl
+			set = append(set, ak)
+			m.Answer = append(set, zonemodel.SignWith(k, c.zone.Apex, set, time.Now()))
+			return true
+		}},
 		vkKind{"attacker-resign", 0, func(c *vkTamperCtx, m *dns.Msg) bool {
 			// altered data, every in-zone RRset re-signed with the attacker's key under the zone's name
 			if c.zone == nil || !c.zone.Mode.Signed() || c.q.Qtype == dns.TypeDNSKEY {
